@@ -987,6 +987,8 @@ class FormExec:
                 return (cur == r.value) == isinstance(op, ast.Eq)
             if l == 'rep.name' and isinstance(op, ast.In) and ast.unparse(r) in self.sets:
                 return self.name in self.sets[ast.unparse(r)]
+            if l == 'rep.name' and isinstance(op, ast.In) and isinstance(r, ast.Tuple) and all(isinstance(x, ast.Constant) for x in r.elts):
+                return self.name in [x.value for x in r.elts]
             if l == 'len(args)' and isinstance(r, ast.Constant) and isinstance(op, ast.Eq):
                 return self.nargs == r.value
             if l == 'rep.type' and isinstance(op, ast.Eq):
@@ -1085,6 +1087,34 @@ class FormExec:
                 return ('f', '(XConst %s)' % ('true' if b[1] else 'false'))
             if f == "'__{}'.format" and len(a) == 1 and ast.unparse(a[0]) == 'arg.name':
                 return ('s', '__' + self.kwname)
+            # ---- constructors of theory/head.py
+            if f == 'TelClause' and len(a) == 2 and isinstance(a[0], ast.List) and len(a[0].elts) == 2:
+                c = self.val(a[1])
+                if c[0] != 'b':
+                    raise Unsupported('clause flag ' + src)
+                return ('f', '(HxClause %s %s %s)' % ('true' if c[1] else 'false', self.fml(a[0].elts[0]), self.fml(a[0].elts[1])))
+            if f == 'TelNegation' and len(a) == 1:
+                return ('f', '(HxNeg %s)' % self.fml(a[0]))
+            if f == 'TelNext' and len(a) == 3:
+                n, w = self.val(a[0]), self.val(a[2])
+                if n[0] != 'n' or w[0] != 'b':
+                    raise Unsupported('head next arguments ' + src)
+                return ('f', '(HxNext %s %s %s)' % (n[1], self.fml(a[1]), 'true' if w[1] else 'false'))
+            if f == 'TelUntil' and len(a) == 3:
+                l, u = self.val(a[0]), self.val(a[2])
+                if u[0] != 'b':
+                    raise Unsupported('until flag ' + src)
+                return ('f', '(HxUntil %s %s %s)' % ('None' if l == ('none',) else '(Some %s)' % self.fml(a[0]), self.fml(a[1]), 'true' if u[1] else 'false'))
+            if f == 'TelAtom' and len(a) == 3 and ast.unparse(a[0]) == 'True' and ast.unparse(a[2]) == '[]':
+                n = self.val(a[1])
+                if n[0] != 's':
+                    raise Unsupported('head atom name ' + src)
+                return ('f', '(HxAtomKw %s)' % coq_str(n[1]))
+            if f == 'TelConstant' and len(a) == 1:
+                b = self.val(a[0])
+                if b[0] != 'b':
+                    raise Unsupported('head constant ' + src)
+                return ('f', '(HxConst %s)' % ('true' if b[1] else 'false'))
         raise Unsupported('expression ' + src[:120])
 
     def fml(self, e):
@@ -1222,6 +1252,138 @@ def gen_bodyform(out):
 
 
 
+# ------------------------------------------------------------------------------------------------ theory/head.py: head formulas
+def method_src(cls, name):
+    return [ast.unparse(st) for st in find_fun(cls, name).body if not (isinstance(st, ast.Expr) and isinstance(st.value, ast.Constant))]
+
+
+def gen_headform(out):
+    F = parse('telingo/theory/formula.py')
+    Hd = parse('telingo/theory/head.py')
+    sets = {}
+    for st in F.body:
+        if isinstance(st, ast.Assign) and isinstance(st.value, ast.Set) and all(isinstance(e, ast.Constant) for e in st.value.elts):
+            sets[ast.unparse(st.targets[0])] = sorted(e.value for e in st.value.elts)
+    cf = find_fun(Hd, 'create_formula')
+    # the head variant rejects the left-over case by `raise` after the if-chain of the connectives: executed like the body variant
+    rows = []
+    names = sorted(set(sets['g_binary_operators']) | set(sets['g_unary_operators']) | set(sets['g_tel_operators']))
+    for name in names:
+        for nargs in (1, 2):
+            ex = FormExec(name, nargs, sets)
+            try:
+                r = ex.run(cf.body)
+            except Raised:
+                r = None
+            except Unsupported as e:
+                if 'create_atom' in str(e):
+                    r = None
+                else:
+                    raise
+            if r is not None:
+                rows.append('  | %s, %d => Some (%s, %s)' % (coq_str(name), nargs, 'true' if ex.neg_rejected else 'false', r))
+    hx = lambda t: t.replace('XLhs', 'HxLhs').replace('XRhs', 'HxRhs').replace('XIfZero', 'HxIfZero')
+    rows = [hx(r) for r in rows]
+    lines = ['(* ---- telingo/theory/head.py: create_formula - the head formula object of every operator (None: rejected) ---- *)',
+             'Definition head_create_gen (op : string) (nargs : nat) : option (bool * hexp) :=\n  match op, nargs with\n' + '\n'.join(rows) + '\n  | _, _ => None\n  end.']
+    kws = []
+    for kw in ('initial', 'final', 'true', 'false', 'foo'):
+        ex = FormExec('&', 1, sets, kwname=kw)
+        try:
+            r = ex.run(cf.body)
+        except Raised:
+            r = None
+        if r is not None:
+            kws.append('  | %s => Some %s' % (coq_str(kw), hx(r)))
+    lines.append('Definition head_keyword_gen (name : string) : option hexp :=\n  match name with\n' + '\n'.join(kws) + '\n  | _ => None\n  end.')
+    # ShiftFormula: shapes checked textually, guards and arithmetic regenerated
+    cls = {n.name: n for n in ast.walk(Hd) if isinstance(n, ast.ClassDef)}
+    SF = cls['ShiftFormula']
+    if method_src(SF, '__init__') != ['self.__shift = shift']:
+        raise Unsupported('ShiftFormula.__init__')
+    c = Ctx({'n': 'nat', 'd': 'nat', 'until': 'bool'}, subst={'x.lhs': 'n', 'self.__shift': 'd', 'x.until': 'until'})
+    at = find_fun(SF, 'visit_TelAtom')
+    if len(at.body) != 1 or not isinstance(at.body[0], ast.Return) or not isinstance(at.body[0].value, ast.IfExp) or ast.unparse(at.body[0].value.body) != 'x' \
+            or ast.unparse(at.body[0].value.orelse) != 'TelShift(-self.__shift, x)':
+        raise Unsupported('ShiftFormula.visit_TelAtom')
+    lines.append('(* ---- ShiftFormula / UnfoldFormula / HeadFormulaToBodyFormula / ClauseToRule: guards and arithmetic (statement shapes are checked textually) ---- *)')
+    lines.append('Definition shift_atom_here_gen (d : nat) : option bool := %s.' % boolx(c, at.body[0].value.test))
+    nx = find_fun(SF, 'visit_TelNext')
+    if len(nx.body) != 1 or not isinstance(nx.body[0], ast.If) or len(nx.body[0].body) != 1 or len(nx.body[0].orelse) != 1:
+        raise Unsupported('ShiftFormula.visit_TelNext')
+    inside, outside = nx.body[0].body[0], nx.body[0].orelse[0]
+    if not (isinstance(inside, ast.Return) and isinstance(inside.value, ast.Call) and ast.unparse(inside.value.func) == 'shift_formula' and ast.unparse(inside.value.args[0]) == 'x.rhs'):
+        raise Unsupported('ShiftFormula.visit_TelNext inside branch')
+    o = outside.value if isinstance(outside, ast.Return) else None
+    if not (isinstance(o, ast.Call) and ast.unparse(o.func) == 'TelShift' and ast.unparse(o.args[0]) == '0' and isinstance(o.args[1], ast.Call) and ast.unparse(o.args[1].func) == 'TelNext'
+            and [ast.unparse(x) for x in o.args[1].args[1:]] == ['x.rhs', 'x.weak']):
+        raise Unsupported('ShiftFormula.visit_TelNext outside branch')
+    lines.append('Definition shift_next_inside_gen (n d : nat) : option bool := %s.' % boolx(c, nx.body[0].test))
+    lines.append('Definition shift_next_rest_gen (n d : nat) : option Z := %s.' % num(c, inside.value.args[1]))
+    lines.append('Definition shift_next_ahead_gen (n d : nat) : option Z := %s.' % num(c, o.args[1].args[0]))
+    un = method_src(SF, 'visit_TelUntil')
+    want = ['inner = TelNext(1, x, not x.until)', 'if x.lhs is not None:\n    inner = TelClause([x.lhs, inner], x.until)', 'return shift_formula(TelClause([x.rhs, inner], not x.until), self.__shift)']
+    if un != want:
+        raise Unsupported('ShiftFormula.visit_TelUntil: ' + repr(un))
+    lines.append('Definition shift_until_next_weak_gen (until : bool) : bool := negb until.')
+    lines.append('Definition shift_until_inner_conj_gen (until : bool) : bool := until.')
+    lines.append('Definition shift_until_outer_conj_gen (until : bool) : bool := negb until.')
+    if method_src(SF, 'visit_TelClause') != ['return TelClause(self(x.elements), x.conjunctive)'] or method_src(SF, 'visit_TelNegation') != ['return TelShift(-self.__shift, x)'] \
+            or method_src(SF, 'visit_TelConstant') != ['return TelShift(-self.__shift, x)']:
+        raise Unsupported('ShiftFormula clause/negation/constant')
+    UF = cls['UnfoldFormula']
+    if method_src(UF, 'visit_TelAtom') != ['return [[x]]'] or method_src(UF, 'visit_TelShift') != ['return [[x]]'] or method_src(UF, 'visit_TelClause') != [
+            'elements = map(self, x.elements)', 'return map(list, _it.chain(*elements) if x.conjunctive else _it.starmap(_it.chain, _it.product(*elements)))']:
+        raise Unsupported('UnfoldFormula')
+    lines.append('Definition unfold_conjunction_concatenates_gen : bool := true.      (* itertools.chain over the clause lists of the elements *)')
+    lines.append('Definition unfold_disjunction_is_product_gen : bool := true.        (* one clause per combination: starmap(chain, product(...)) *)')
+    HB = cls['HeadFormulaToBodyFormula']
+    if method_src(HB, 'visit_TelAtom') != ['return self.__add_formula(_bd.Atom(x.name, x.arguments, x.positive))'] \
+            or method_src(HB, 'visit_TelNext') != ['return self.__add_formula(_bd.Next(self(x.rhs), x.lhs, x.weak))'] \
+            or method_src(HB, 'visit_TelNegation') != ['return self.__add_formula(_bd.Negation(self(x.rhs)))'] \
+            or method_src(HB, 'visit_TelConstant') != ['return self.__add_formula(_bd.BooleanConstant(x.value))']:
+        raise Unsupported('HeadFormulaToBodyFormula atoms/next/negation/constant')
+    hu = method_src(HB, 'visit_TelUntil')
+    if hu != ["formula = self.__add_formula(_bd.TelFormulaN('>?' if x.until else '>*', None if x.lhs is None else self(x.lhs), self(x.rhs)))",
+              'formula.set_future(self.__add_formula(_bd.Next(formula, 1, not x.until)))', 'return formula']:
+        raise Unsupported('HeadFormulaToBodyFormula.visit_TelUntil: ' + repr(hu))
+    hc = method_src(HB, 'visit_TelClause')
+    if hc != ["op = '&' if x.conjunctive else '|'", 'elements = map(self, x.elements)', 'return _ft.reduce(lambda l, r: _bd.BooleanFormula(op, l, r), elements)']:
+        raise Unsupported('HeadFormulaToBodyFormula.visit_TelClause: ' + repr(hc))
+    lines.append('Definition h2b_until_op_gen (until : bool) : telop := if until then OpUntil else OpRelease.')
+    lines.append('Definition h2b_until_future_weak_gen (until : bool) : bool := negb until.')
+    lines.append('Definition h2b_clause_op_gen (conj : bool) : boolop := if conj then OpAnd else OpOr.')
+    CR = cls['ClauseToRule']
+    ts = method_src(CR, 'visit_TelShift')
+    want = ['stp = lambda x, n, w: x', 'if x.lhs != 0:\n    stp = _bd.Next if x.lhs > 0 else _bd.Previous', 'neg = lambda x: ctx.add_formula(_bd.Negation(x))',
+            'nxt = lambda l, r: ctx.add_formula(stp(r, abs(l), False))', 'rhs = head_formula_to_body_formula(x.rhs, ctx.add_formula)', 'frm = neg(nxt(x.lhs, rhs))', 'lit = frm.translate(ctx, step)',
+            'if lit > 0:\n    aux = ctx.backend.add_atom()\n    ctx.backend.add_rule([aux], [-lit])\n    lit = -aux', 'self.__body.append(lit)']
+    if ts != want:
+        raise Unsupported('ClauseToRule.visit_TelShift: ' + repr(ts))
+    ta = method_src(CR, 'visit_TelAtom')
+    if ta != ['sym = _clingo.Function(x.name, x.arguments + [_clingo.Number(step)], x.positive)', 'atom = ctx.symbols[sym]',
+              'if atom is not None:\n    self.__head.append(atom.literal if atom.literal != 0 else ctx.backend.add_atom(sym))']:
+        raise Unsupported('ClauseToRule.visit_TelAtom: ' + repr(ta))
+    tc = method_src(Hd, 'translate_clause')
+    if tc != ['head = []', 'body = [body_literal]', 'for lit in clause:\n    ClauseToRule(head, body)(lit, ctx, step)', 'ctx.backend.add_rule(head, body)']:
+        raise Unsupported('translate_clause: ' + repr(tc))
+    lines.append('Definition shifted_part_is_strong_gen : bool := true.       (* stp(r, abs(l), False): Previous/Next are strong; the sign of the shift picks the class *)')
+    lines.append('Definition shifted_part_negated_in_body_gen : bool := true. (* body literal = literal of the negated shifted part; a positive literal is wrapped so that it stays a negative dependency *)')
+    hf = find_fun(cls['HeadFormula'], 'translate')
+    src = ast.unparse(hf)
+    for need in ('shifted = shift_formula(self.__formula, step - self.__timestep)', 'undfolded = unfold_formula(shifted)', 'for clause in undfolded:\n        translate_clause(clause, ctx, step, self.__literals[0])',
+                 'ctx.add_todo(self, step + 1)'):
+        if need not in src:
+            raise Unsupported('HeadFormula.translate: ' + need[:40])
+    c2 = Ctx({'step': 'nat', 'timestep': 'nat'}, subst={'self.__timestep': 'timestep'})
+    sh = [n for n in ast.walk(hf) if isinstance(n, ast.Assign) and ast.unparse(n.targets[0]) == 'shifted'][0]
+    lines.append('Definition head_shift_amount_gen (step timestep : nat) : option Z := %s.' % num(c2, sh.value.args[1]))
+    rq = [n for n in ast.walk(hf) if isinstance(n, ast.Call) and ast.unparse(n.func) == 'ctx.add_todo'][0]
+    lines.append('Definition head_requeue_step_gen (step : nat) : option Z := %s.' % num(c2, rq.args[1]))
+    out.append('\n'.join(lines))
+
+
+
 # ------------------------------------------------------------------------------------------------ main
 # group -> (generated file under coq/Gen, fragment functions, Requires)
 GROUPS = {
@@ -1232,6 +1394,7 @@ GROUPS = {
     'theory': ('FromTheory.v', [gen_theory], ['GenPrelude', 'TheoryPrelude']),
     'dynamic': ('FromDynamic.v', [gen_dynamic], ['GenPrelude', 'TheoryPrelude', 'DynPrelude']),
     'bodyform': ('FromBodyForm.v', [gen_bodyform], ['GenPrelude', 'TheoryPrelude', 'FormPrelude']),
+    'headform': ('FromHeadForm.v', [gen_headform], ['GenPrelude', 'TheoryPrelude', 'FormPrelude']),
 }
 VERIF = os.path.dirname(os.path.dirname(os.path.abspath(__file__)))
 GEN = os.path.join(VERIF, 'coq', 'Gen')
